@@ -38,7 +38,7 @@ LEVEL_TEXT = ('Every generated program is scanned exactly (what to_code prints i
               'an escaped construct is a concrete node in the generated code.')
 LEVEL_NOTE = 'Trusted: ast.parse of the to_code text; the construct counter instrumentation in this module.'
 
-GEN = {'def_extras': 60, 'excl': ('no_try_else', 'no_for_target_rebind', 'no_lambda_capture_across_rebind', 'no_impure_chain_middle',
+GEN = {'def_extras': 60, 'excl': ('no_for_target_rebind', 'no_lambda_capture_across_rebind', 'no_impure_chain_middle',
                                    )}
 _KEEP = []
 FORBIDDEN = (ast.If, ast.While, ast.For, ast.Break, ast.Continue, ast.IfExp, ast.BoolOp)
